@@ -26,6 +26,7 @@ def run(prog, chk):
         "every declared code point of every glyph of the order reaches the mapping (no filtering: U+0000 is a code point); OS/2 indices only exclude None (R03.7)",
         "the compilers never fill in or override their glyphOrder option: a source is ordered by the caller's argument or its own public.glyphOrder (R03.8)",
         "a glyph a filter takes from another layer and adds under a new name has its code points removed before the insertion (R03.9)",
+        "renaming to production names keeps every glyph name unique (kept names are reserved up front, every handed-out name is recorded): a name carried by two glyphs makes the returned font's cmap and name-keyed tables point at the wrong glyph (R03.10, shared with C11)",
     ]
     chk.not_decided += ["the ordering as a function of arbitrary inputs", "cmap binary encoding (fontTools)"]
     chk.guard(r031, prog, chk)
@@ -37,6 +38,8 @@ def run(prog, chk):
     chk.guard(r037, prog, chk)
     chk.guard(r038, prog, chk)
     chk.guard(r039, prog, chk)
+    from .c11 import r113
+    chk.guard(r113, prog, chk, "R03.10")
 
 
 # ----------------------------------------------------------------------------- R03.1
@@ -703,6 +706,8 @@ def r039(prog, chk):
 
 
 MUTANTS = [
+    M("kept names reserved only when the loop reaches them (seeded C03h)", "ufo2ft/postProcessor.py", "PostProcessor._build_production_names",
+      "seen = {name: 1 for name in glyphOrder if name not in self.glyphSet}", "seen = {}", rule="R03.10"),
     M("glyph copies drop U+0000 (seeded C03g)", "ufo2ft/util.py", "_copyGlyph",
       "list(glyph.unicodes)", "[u for u in glyph.unicodes if 0 < u <= 0x10FFFF]", rule="R03.7"),
     M("recursive colour-layer copies keep their code points (seeded C03f)", "ufo2ft/filters/explodeColorLayerGlyphs.py", "ExplodeColorLayerGlyphsFilter._copyGlyph",
